@@ -20,7 +20,13 @@ func (d Directive) BodyError(msg string) *jerr.JApiError {
 }
 
 func (d Directive) BodyErrorIndex(msg string, i uint) *jerr.JApiError {
-	return d.makeError(msg, d.BodyCoords.File(), d.BodyCoords.begin+bytes.Index(i))
+	idx := d.BodyCoords.begin + bytes.Index(i)
+	if f := d.BodyCoords.File(); f != nil && idx > bytes.Index(f.Content().Len()) {
+		// The position is not one of this body (the schema library gives such
+		// positions for a type inside an OR shortcut): point at its beginning.
+		idx = d.BodyCoords.begin
+	}
+	return d.makeError(msg, d.BodyCoords.File(), idx)
 }
 
 func (d Directive) ParameterError(msg string) *jerr.JApiError {
